@@ -86,7 +86,16 @@ NewLogger(F) ==
     /\ act' = [name |-> "NewLogger", v |-> 0, attr |-> ""]
     /\ UNCHANGED <<stack, pool, lay, obs>>
 
+\* the Logger of layer i is given another name (Logger.name = ...): nothing observable changes
+\* except that later records must go to the logger of the NEW name (checked by the trace module)
+Rename(i) ==
+    /\ i \in 1..N /\ stack[i] = "logger"
+    /\ recs' = <<>> /\ nw' = 0
+    /\ act' = [name |-> "Rename", v |-> i, attr |-> ""]
+    /\ UNCHANGED <<stack, pool, lay, obs, tmpl>>
+
 Next == \/ \E v \in Values : Write(v)
+        \/ \E i \in 1..N : Rename(i)
         \/ Read
         \/ \E v \in Values : PoolChange("demand", v) \/ PoolChange("supply", v)
         \/ \E v \in Fits : PoolChange("util", v) \/ PoolChange("alloc", v)
